@@ -201,6 +201,25 @@ Lemma midnight_tail_counterexample : exists w t,
   sched_next 400 ex_night ex_last (ex_last + 60) = Some w /\ w_start w <= t < w_end w /\ sched_includes ex_night t = false.
 Proof. exists (mkWin 1722898800 1722906000 false), 1722905940. split; [vm_compute; reflexivity|]. split; [cbn [w_start w_end]; lia | vm_compute; reflexivity]. Qed.
 
+(* what exactly goes wrong with a start clock of 24:00: Includes builds the span's window from the instant's own day, so
+   it starts at the following midnight and can never contain the instant — such a span is dead for Includes, while
+   Next does return its windows *)
+Lemma span_2400_never_includes : forall (cs : clockspan) (D t : Z),
+  hour (cs_start cs) = 24 -> 0 <= minute (cs_start cs) -> t / 86400 = D -> span_includes t D cs = false.
+Proof.
+  intros cs D t H M HD. unfold span_includes, window_of, clock_time; cbn [w_start w_end]. rewrite H.
+  assert (t < 86400 * D + 86400).
+  { pose proof (Z.mod_pos_bound t 86400 ltac:(lia)). pose proof (Z.div_mod t 86400 ltac:(lia)). rewrite HD in *. lia. }
+  apply andb_false_iff; left. apply andb_false_iff; left. lia.
+Qed.
+
+Definition ex_2400_tail : schedule :=
+  mkSched [] [mkCS (mkClock 0 0) (mkClock 0 0) 0 false; mkCS (mkClock 24 0) (mkClock 7 30) 0 false].
+Lemma start_2400_tail_counterexample : exists w,
+  sched_next 400 ex_2400_tail ex_last (ex_last + 60) = Some w /\
+  sched_includes ex_2400_tail (w_start w) = true /\ sched_includes ex_2400_tail (w_end w - 60) = false.
+Proof. exists (mkWin 1722902400 1722929400 false). split; [|split]; vm_compute; reflexivity. Qed.
+
 (* non-vacuity of the guarded theorems *)
 Lemma ex_default_timer : exists w,
   sched_next 400 (mkSched [] [mkCS (mkClock 0 0) (mkClock 24 0) 4 true]) ex_last (ex_last + 60) = Some w /\
